@@ -50,6 +50,7 @@ class Facts:
         if expand:
             atoms = expand_atoms(fa, atoms)
             atoms = atoms + caller_context_atoms(fa, _depth)
+            atoms = atoms + guard_call_atoms(fa, at_expr)
         self.atoms = atoms
 
     def _term(self, e: ast.AST) -> Term:
@@ -336,6 +337,72 @@ def call_sites_of(model: Model, fi: FuncInfo) -> List[Tuple[FuncInfo, ast.Call, 
                     idx.setdefault(g.qual, []).append((f, c, skip))
         model.__dict__["_call_site_index"] = idx
     return idx.get(fi.qual, [])
+
+
+def guard_call_atoms(fa: FuncAnalysis, at_expr: ast.AST) -> List[Tuple[ast.AST, bool]]:
+    """Facts established by a *guard helper*: a statement `_require_x(a, b)` that dominates the place, where the private
+    function _require_x is nothing but `if COND: raise ..` (one or several, an optional final bare return). After the
+    call has returned, COND with the parameters replaced by the arguments is false - exactly as if the test stood
+    in line."""
+    m = fa.model
+    fi = fa.fi
+    cfg = fa.cfg
+    if not cfg.has_node(at_expr):
+        return []
+    at_n = cfg.node_of(at_expr)
+    out: List[Tuple[ast.AST, bool]] = []
+    for st in _own(fi):
+        if not (isinstance(st, ast.Expr) and isinstance(st.value, ast.Call) and cfg.has_node(st)):
+            continue
+        n = cfg.node_of(st)
+        if n is at_n or not cfg.dominates(n, at_n):
+            continue
+        call = st.value
+        h = None
+        skip = 0
+        if isinstance(call.func, ast.Name):
+            tgt = m.lookup_target(m.resolve_dotted(fi.module, fi, call.func.id))
+            h = tgt if isinstance(tgt, FuncInfo) else None
+        elif isinstance(call.func, ast.Attribute) and isinstance(call.func.value, ast.Name) and fi.cls is not None and fi.pos_params and call.func.value.id == fi.pos_params[0]:
+            h = m.find_method(fi.cls, call.func.attr)
+            skip = 0 if (h is not None and "staticmethod" in h.decorators) else 1
+        if h is None or isinstance(h.node, ast.Lambda) or not h.name.startswith("_") or h.name.startswith("__"):
+            continue
+        body = [b for b in h.node.body if not (isinstance(b, ast.Expr) and isinstance(b.value, ast.Constant))]
+        tests = []
+        ok = bool(body)
+        for i, b in enumerate(body):
+            if isinstance(b, ast.If) and not b.orelse and len(b.body) == 1 and isinstance(b.body[0], ast.Raise):
+                tests.append(b.test)
+            elif isinstance(b, ast.Return) and i == len(body) - 1 and (b.value is None or (isinstance(b.value, ast.Constant) and b.value.value is None)):
+                pass
+            else:
+                ok = False
+        if not ok or not tests or any(isinstance(a, ast.Starred) for a in call.args):
+            continue
+        mapping: Dict[str, ast.AST] = {}
+        for p_, a_ in zip(h.pos_params[skip:], call.args):
+            mapping[p_] = a_
+        for k_ in call.keywords:
+            if k_.arg is not None:
+                mapping[k_.arg] = k_.value
+        params = set(h.pos_params[skip:]) | {a.arg for a in h.node.args.kwonlyargs}
+        if not params <= set(mapping):
+            continue
+
+        class _S(ast.NodeTransformer):
+            def visit_Name(self_, nm):
+                if isinstance(nm.ctx, ast.Load) and nm.id in mapping:
+                    c_ = clone_ast(mapping[nm.id])
+                    return c_
+                return nm
+
+        for t in tests:
+            t2 = _S().visit(clone_ast(t))
+            ast.fix_missing_locations(t2)
+            t2._parent = st  # type: ignore  # evaluated where the call stands
+            out.append(norm_atom(t2, False))
+    return out
 
 
 def caller_context_atoms(fa: FuncAnalysis, depth: int = 2) -> List[Tuple[ast.AST, bool]]:
